@@ -10,9 +10,19 @@ CANCELLABLE = {"co", "fn", "det", "ra"}       # kinds whose closure has a cancel
 BARE = {"rh", "aw"}                           # bare coroutine handle: no channel in the API (open finding)
 
 
-def make_case(nw, clients, sched):
-    return {"id": 0, "lines": ["case 0 pool %d" % nw] + ["c " + " ".join(c) for c in clients] +
+def make_case(nw, clients, sched, opts=""):
+    return {"id": 0, "lines": [("case 0 pool %d %s" % (nw, opts)).strip()] + ["c " + " ".join(c) for c in clients] +
             ["sched " + " ".join(map(str, sched)), "end"]}
+
+
+def with_cv_yield(rng, cases, share=0.4):
+    """a share of the cases runs with a scheduling point at the entry of the pool's `_cond.wait` (predicate evaluated, mutex
+    held, waiter not yet registered): notifications that are not issued under the mutex get lost there. Not combined with
+    'r' (a cancelled party calling is_stopped() while a worker holds the mutex is not modelled)."""
+    for c in cases:
+        if rng.random() < share and not any("r" in w.split(":")[1] for l in c["lines"] if l.startswith("c ") for w in l.split()[1:] if ":" in w):
+            c["lines"][0] += " cvy"
+    return cases
 
 
 def random_sched(rng, n, length):
@@ -240,12 +250,14 @@ class PoolSuite(Suite):
 
     def gen_cases(self, rng, tier):
         if tier == "quick":
-            return (gen_stop_family(rng, 3000) + gen_destroy_client(rng, 800) + gen_destroy_job(rng, 800) + gen_idle_family(rng, 600)
-                    + gen_dependent_family(rng, 800)
-                    + gen_exhaustive(EXH_SHAPES_2T[:4], 8))
-        return (gen_stop_family(rng, 60000) + gen_destroy_client(rng, 14000) + gen_destroy_job(rng, 14000) + gen_idle_family(rng, 8000)
-                + gen_dependent_family(rng, 12000)
-                + gen_exhaustive(EXH_SHAPES_2T, 12) + gen_exhaustive(EXH_SHAPES_3T, 8))
+            return with_cv_yield(rng, gen_stop_family(rng, 3000) + gen_destroy_client(rng, 800) + gen_destroy_job(rng, 800)
+                                 + gen_idle_family(rng, 600) + gen_dependent_family(rng, 800)
+                                 + gen_exhaustive(EXH_SHAPES_2T[:4], 8))
+        base = (gen_stop_family(rng, 60000) + gen_destroy_client(rng, 14000) + gen_destroy_job(rng, 14000) + gen_idle_family(rng, 8000)
+                + gen_dependent_family(rng, 12000))
+        exh = gen_exhaustive(EXH_SHAPES_2T, 12) + gen_exhaustive(EXH_SHAPES_3T, 8)
+        exh_cv = [dict(c, lines=[c["lines"][0] + " cvy"] + c["lines"][1:]) for c in gen_exhaustive(EXH_SHAPES_2T[:6], 11)]
+        return with_cv_yield(rng, base) + exh + exh_cv
 
     def normalize(self, lines):
         """the order in which stop() destroys the closures of the swapped-out queue is std::deque's (unspecified; libstdc++
